@@ -367,3 +367,12 @@ mod tests {
         assert!(*trade_vols == vec![0, 0, 30]);
     }
 }
+
+/// Read-only verification hooks (feature `verif`, off by default)
+#[cfg(feature = "verif")]
+impl<const LEVELS: usize> Env<LEVELS> {
+    /// Instructions submitted since the last step, in submission order
+    pub fn verif_pending(&self) -> &[Event<OrderId>] {
+        &self.transactions
+    }
+}
